@@ -494,6 +494,10 @@ def prelude():
 
 
 def floors(ctx):
+    return dict(_floors(ctx), stepwise_listing_probes=10)
+
+
+def _floors(ctx):
     q = ctx.tier == "quick"
     return {"evaluations": 5000 if q else 50000, "histories": 200 if q else 2000, "cache_hits": 1000 if q else 10000,
             "histories_shared_metaclass": 20, "histories_subclassing": 20, "histories_custom_hashfunc": 20,
@@ -545,6 +549,55 @@ def probe_keyword_named_cls(ctx):
             return
 
 
+def probe_stepwise_listing(ctx):
+    """
+    A listing consumed step by step while the caller goes on using the classes (the pruning loop
+    `for inst in get_all(C): drop(C, ...)`; constructing while iterating).  What counts as "the live mappings" while
+    they are changing is judged permissively: the listing must not raise, must contain every instance that was live
+    from the call to the last step, and nothing that was not live at some moment in between.
+    """
+    scenarios = [("SharedA", "construct_other_class_on_the_shared_metaclass", lambda c, inst: c["SharedB"](99)),
+                 ("SharedA", "drop_own_key", lambda c, inst: singleton.drop_semi_singleton_mapping(c["SharedA"], 3)),
+                 ("SharedA", "construct_own_new_key", lambda c, inst: c["SharedA"](50)),
+                 ("SharedA", "clear_other_class", lambda c, inst: singleton.clear_semi_singleton(c["SharedB"])),
+                 ("Own1", "prune_while_listing", lambda c, inst: singleton.drop_semi_singleton_mapping(c["Own1"], 2)),
+                 ("Child", "construct_parent", lambda c, inst: c["Parent"](7)),
+                 ("Own1", "drop_then_construct_same_size", lambda c, inst: (singleton.drop_semi_singleton_mapping(c["Own1"], 1), c["Own1"](60)))]
+    for cname, label, act in scenarios:
+        for when in (1, 2):
+            classes = make_classes()
+            cls = classes[cname]
+            insts = [cls(i) for i in range(4)]
+            classes["SharedB"](0)
+            before = {id(x) for x in singleton.get_all_semi_singleton_instances(cls)}
+            seen, raised = [], None
+            try:
+                it = iter(singleton.get_all_semi_singleton_instances(cls))
+                for _ in range(when):
+                    seen.append(next(it))
+                act(classes, insts)
+                seen.extend(it)
+            except Exception as exc:  # noqa: BLE001 - which exception is the observation
+                raised = type(exc).__name__
+            after_objs = list(singleton.get_all_semi_singleton_instances(cls))
+            after = {id(x) for x in after_objs}
+            ctx.evaluated()
+            ctx.count("stepwise_listing_probes")
+            ctx.nontrivial(("stepwise", cname, label, when))
+            case = {"probe": "stepwise_listing"}
+            got = {id(x) for x in seen}
+            if raised:
+                ctx.violation(f"get_all:raised:{raised}:listing_consumed_stepwise", f"get_all_semi_singleton_instances({cname}) "
+                              f"consumed step by step raised {raised} when the caller did '{label}' after {when} step(s)", case)
+                return
+            if not (before & after) <= got or not got <= (before | after) or len(seen) != len(got):
+                ctx.violation("get_all:wrong_instances:listing_consumed_stepwise", f"listing of {cname} consumed step by step with "
+                              f"'{label}' after {when} step(s): {len(seen)} entries ({len(got)} distinct), {len((before & after) - got)} "
+                              f"always-live instances missing, {len(got - (before | after))} never-live objects reported", case)
+                return
+            del insts, after_objs, seen
+
+
 def mass_distinct_keys(ctx, rng, n):
     """
     n different keys must yield n different instances.  The keys are 12-digit ints passed by keyword and, in a second
@@ -582,6 +635,7 @@ def run(ctx):
     rng = random.Random(ctx.seed * 1299709 + ctx.shard * 11 + 17)
     if ctx.shard == 0:
         probe_keyword_named_cls(ctx)
+        probe_stepwise_listing(ctx)
         mass_distinct_keys(ctx, random.Random(ctx.seed + 1717), 300000 if ctx.tier == "quick" else 600000)
     quick = ctx.tier == "quick"
     pre = prelude()
@@ -604,6 +658,11 @@ def run(ctx):
 def replay(ctx, case):
     if case.get("mass"):
         mass_distinct_keys(ctx, random.Random(ctx.seed + 1717), case["mass"])
+        ctx.nontrivial("replay-a")
+        ctx.nontrivial("replay-b")
+        return
+    if case.get("probe") == "stepwise_listing":
+        probe_stepwise_listing(ctx)
         ctx.nontrivial("replay-a")
         ctx.nontrivial("replay-b")
         return
